@@ -44,9 +44,15 @@ package quic_test
 // bounds): datagram i of the first flight carries exactly the CRYPTO ranges the builder
 // assigned to datagram i - fixed: the same CRYPTO frames in the same order and the same number
 // of PING frames; random: the same bytes, the number of CRYPTO frames and of PING frames within
-// the bounds - and the flight has as many datagrams as the builder returned.
+// the bounds - and the flight has as many datagrams as the builder returned; and, key
+// "flight-total-length" (the statement's "datagram sizes (..., total frame length, ...)"), for a
+// datagram whose packet size InitialPackets does not pin: PADDING on the wire => the frames total
+// exactly Frames.Length, no PADDING => at least Length, no Length => no PADDING, at most
+// max(MaxPADDING-1, MinPADDING) runs of PADDING; a fixed frame list shows exactly its own PADDING
+// bytes. The knobs that set Frames.Length / PADDING are in c10_flightlen_test.go.
 
 import (
+	"bytes"
 	"errors"
 	"fmt"
 	"sort"
@@ -68,7 +74,8 @@ type c10FlightLayout struct {
 	Random  bool       // framing inside a datagram is randomised within Bounds
 	Ranges  [][][2]int // [datagram][k] = [start, end) of the CRYPTO stream, in frame order
 	Pings   []int      // fixed: PING frames per datagram
-	Bounds  []quic.QUICRandomFrames
+	Pads    []int      // fixed: PADDING bytes per datagram (nil = none)
+	Bounds  []quic.QUICRandomFrames // random: framing bounds per datagram, Length = total frame length (0 = not pinned, no PADDING)
 	Comment string
 }
 
@@ -239,11 +246,18 @@ func c10FlightExpect(fb quic.QUICFrameBuilder, l int) (cands []c10FlightLayout, 
 			}
 		}
 		return cands, true
+	case *c10LenFlight:
+		for _, lay := range b.Built {
+			if lay.L == l {
+				cands = append(cands, lay)
+			}
+		}
+		return cands, true
 	case *quic.QUICFlightFrames:
 		lay := c10FlightLayout{L: l}
 		for _, fr := range b.Datagrams {
 			var rs [][2]int
-			pings := 0
+			pings, pads := 0, 0
 			for _, f := range fr {
 				if off, length, isCrypto := f.CryptoFrameInfo(); isCrypto {
 					r, valid := c10ResolveRange(off, length, l)
@@ -253,9 +267,11 @@ func c10FlightExpect(fb quic.QUICFrameBuilder, l int) (cands []c10FlightLayout, 
 					rs = append(rs, r)
 				} else if raw, _ := f.Read(); len(raw) == 1 && raw[0] == 1 {
 					pings++
+				} else if len(raw) > 0 && len(bytes.Trim(raw, "\x00")) == 0 {
+					pads += len(raw)
 				}
 			}
-			lay.Ranges, lay.Pings = append(lay.Ranges, rs), append(lay.Pings, pings)
+			lay.Ranges, lay.Pings, lay.Pads = append(lay.Ranges, rs), append(lay.Pings, pings), append(lay.Pads, pads)
 		}
 		return []c10FlightLayout{lay}, true
 	case *quic.QUICRandomFlightFrames:
@@ -295,34 +311,50 @@ func c10MergeRanges(rs [][2]int) [][2]int {
 	return out
 }
 
-// c10FlightMatch compares the first flight with one layout; "" = as specified.
-func c10FlightMatch(lay c10FlightLayout, first []sim.ObservedInitial) string {
+// c10FlightMatch compares the first flight with one layout; why == "" = as specified. pinned(i):
+// InitialPackets pins an exact packet size for datagram i (the packer then tops the builder's
+// payload up with PADDING, so the builder's own total frame length / PADDING is not observable).
+func c10FlightMatch(lay c10FlightLayout, first []sim.ObservedInitial, pinned func(int) bool) (key, why string) {
+	const layout, total = "flight-layout", "flight-total-length"
 	if len(first) != len(lay.Ranges) {
-		return fmt.Sprintf("the first flight has %d Initial datagrams, the builder laid out %d", len(first), len(lay.Ranges))
+		return layout, fmt.Sprintf("the first flight has %d Initial datagrams, the builder laid out %d", len(first), len(lay.Ranges))
 	}
 	for i, o := range first {
 		var got [][2]int
-		pings := 0
+		pings, padBytes, padRuns := 0, 0, 0
 		for _, f := range o.Frames {
 			switch f.Type {
 			case 6:
 				got = append(got, [2]int{int(f.Offset), int(f.Offset) + len(f.Data)})
 			case 1:
 				pings++
+			case 0:
+				padBytes += f.Len
+				padRuns++
 			}
 		}
+		payload := len(o.Pkt.Payload)
 		want := lay.Ranges[i]
 		if !lay.Random {
 			if fmt.Sprint(got) != fmt.Sprint(want) {
-				return fmt.Sprintf("datagram %d carries the CRYPTO frames %v, the builder specified %v", i, got, want)
+				return layout, fmt.Sprintf("datagram %d carries the CRYPTO frames %v, the builder specified %v", i, got, want)
 			}
 			if pings != lay.Pings[i] {
-				return fmt.Sprintf("datagram %d carries %d PING frames, the builder specified %d", i, pings, lay.Pings[i])
+				return layout, fmt.Sprintf("datagram %d carries %d PING frames, the builder specified %d", i, pings, lay.Pings[i])
+			}
+			// total frame length of a fixed frame list: the same CRYPTO and PING frames, so the
+			// PADDING bytes decide it
+			wantPad := 0
+			if i < len(lay.Pads) {
+				wantPad = lay.Pads[i]
+			}
+			if !pinned(i) && padBytes != wantPad {
+				return total, fmt.Sprintf("datagram %d: %d bytes of frames with %d bytes of PADDING, the builder's frame list has %d bytes of PADDING", i, payload, padBytes, wantPad)
 			}
 			continue
 		}
 		if fmt.Sprint(c10MergeRanges(got)) != fmt.Sprint(c10MergeRanges(want)) {
-			return fmt.Sprintf("datagram %d carries the CRYPTO ranges %v, the builder assigned %v", i, c10MergeRanges(got), c10MergeRanges(want))
+			return layout, fmt.Sprintf("datagram %d carries the CRYPTO ranges %v, the builder assigned %v", i, c10MergeRanges(got), c10MergeRanges(want))
 		}
 		rf := lay.Bounds[i]
 		lo, hi := 0, 0
@@ -332,38 +364,60 @@ func c10FlightMatch(lay c10FlightLayout, first []sim.ObservedInitial) string {
 			hi += min(max(int(rf.MaxCRYPTO)-1, int(rf.MinCRYPTO), 1), n)
 		}
 		if len(got) < lo || len(got) > hi {
-			return fmt.Sprintf("datagram %d: %d CRYPTO frames for %d ranges, builder bounds [%d,%d) per range", i, len(got), len(want), rf.MinCRYPTO, rf.MaxCRYPTO)
+			return layout, fmt.Sprintf("datagram %d: %d CRYPTO frames for %d ranges, builder bounds [%d,%d) per range", i, len(got), len(want), rf.MinCRYPTO, rf.MaxCRYPTO)
 		}
 		if hiP := max(int(rf.MaxPING)-1, int(rf.MinPING)); pings < int(rf.MinPING) || pings > hiP {
-			return fmt.Sprintf("datagram %d: %d PING frames, builder bounds [%d,%d)", i, pings, rf.MinPING, rf.MaxPING)
+			return layout, fmt.Sprintf("datagram %d: %d PING frames, builder bounds [%d,%d)", i, pings, rf.MinPING, rf.MaxPING)
+		}
+		// total frame length (Frames.Length): PADDING tops CRYPTO + PING up to exactly Length;
+		// frames that reach Length by themselves are sent as they are, without PADDING; no
+		// Length = no PADDING. The same reading as for a per-datagram QUICRandomFrames in
+		// c10Check ("frames-total-length").
+		if pinned(i) {
+			continue
+		}
+		switch {
+		case rf.Length == 0 && padBytes > 0:
+			return total, fmt.Sprintf("datagram %d: %d bytes of PADDING among %d bytes of frames, the builder pins no total frame length", i, padBytes, payload)
+		case rf.Length > 0 && padBytes > 0 && payload != int(rf.Length):
+			return total, fmt.Sprintf("datagram %d: frames (%d CRYPTO frames, %d PING frames, %d bytes of PADDING) total %d bytes, the builder pins Frames.Length = %d", i, len(got), pings, padBytes, payload, rf.Length)
+		case rf.Length > 0 && padBytes == 0 && payload < int(rf.Length):
+			return total, fmt.Sprintf("datagram %d: frames total %d bytes without PADDING, the builder pins Frames.Length = %d", i, payload, rf.Length)
+		}
+		if hiZ := max(int(rf.MaxPADDING)-1, int(rf.MinPADDING), 1); padRuns > hiZ {
+			return layout, fmt.Sprintf("datagram %d: %d separate runs of PADDING, builder bounds [%d,%d) PADDING frames", i, padRuns, rf.MinPADDING, rf.MaxPADDING)
 		}
 	}
-	return ""
+	return "", ""
 }
 
 // c10FlightCheck is the flight-layout oracle (see the head of the file).
-func c10FlightCheck(fb quic.QUICFrameBuilder, dial int, chLen int, first []sim.ObservedInitial) *explore.Fail {
-	cands, ok := c10FlightExpect(fb, chLen)
+func c10FlightCheck(ips *quic.InitialPacketSpec, dial int, chLen int, first []sim.ObservedInitial) *explore.Fail {
+	pinned := func(i int) bool {
+		n := len(ips.InitialPackets)
+		return n > 0 && ips.InitialPackets[min(i, n-1)].PacketSize > 0
+	}
+	cands, ok := c10FlightExpect(ips.FrameBuilder, chLen)
 	if !ok {
 		return nil
 	}
 	if len(cands) == 0 {
 		return explore.Failf("flight-layout", "dial %d: a first flight with a %d-byte ClientHello is on the wire, the flight builder laid out none for that length (a layout that cannot be resolved has to be refused)", dial, chLen)
 	}
-	why := ""
+	key, why := "", ""
 	for _, lay := range cands {
-		w := c10FlightMatch(lay, first)
+		k, w := c10FlightMatch(lay, first, pinned)
 		if w == "" {
 			return nil
 		}
 		if why == "" {
-			why = w
+			key, why = k, w
 			if lay.Comment != "" {
 				why += " (" + lay.Comment + ")"
 			}
 		}
 	}
-	return explore.Failf("flight-layout", "dial %d: %s", dial, why)
+	return explore.Failf(key, "dial %d: %s", dial, why)
 }
 
 // c10FlightSiblings: the knobs of the flight-* lattice that precede knob k in c10Knobs and take
